@@ -473,10 +473,12 @@ func applyFault(out []interface{}, ft *Fault) ([]interface{}, bool) {
 			applied = true
 		}
 	case "errors-empty-ok":
-		// a healthy answer that spells out its empty errors list
+		// a healthy answer that spells out its empty errors list (an answer that already carries errors is left alone)
 		if m := el(); m != nil {
-			out[pos] = map[string]interface{}{"data": m["data"], "errors": []interface{}{}}
-			applied = true
+			if e, has := m["errors"]; !has || e == nil {
+				out[pos] = map[string]interface{}{"data": m["data"], "errors": []interface{}{}}
+				applied = true
+			}
 		}
 	case "entry-scalar", "entry-null", "obj-scalar", "list-object", "no-id", "foreign-id", "field-null", "obj-list", "obj-empty-list", "list-null":
 		if m := el(); m != nil {
